@@ -73,6 +73,7 @@ type FuncSpec struct {
 	ReturnGhosts []*GhostAssign // ghost_return NAME = expr : ghost updates performed at every return (results bound)
 	Implements []string // interface-method contract keys this function is checked to satisfy
 	EffectsPrivate bool // callers in other packages see the call as effect-free (see callerView)
+	PoolNew   int  // pool_new K: the function is a sync.Pool New function producing objects of kind K
 }
 
 type GhostAssign struct {
@@ -366,6 +367,17 @@ func (fs *FuncSpec) addClause(t, file string, ln int) error {
 		fs.Standalone = true
 	case "effects_private":
 		fs.EffectsPrivate = true
+	case "pool_new":
+		n, err := strconv.Atoi(strings.TrimSpace(rest))
+		if err != nil {
+			return err
+		}
+		fs.PoolNew = n
+		// what makes a pool's objects kind 1: they are FNV-1a hashers (checked against the body)
+		if n == 1 {
+			e2, _ := parseSpecExpr("result != nil && fnv1a(result)")
+			fs.Ensures = append(fs.Ensures, &Clause{Kind: "ensures", Tags: tags, Text: "result != nil && fnv1a(result)", E: e2, File: file, Line: ln})
+		}
 	case "panics":
 		fs.PanicsMay = rest == "may"
 	case "note":
